@@ -558,7 +558,7 @@ impl Property for C19 {
             2 => lookalike.prop_map(|s| s.to_string()),
             // one letter (or letter pair) replaced by a non-ASCII character whose Unicode upper- or
             // lower-casing is that ASCII text (dotless i, long s, Kelvin sign, ligatures ..)
-            2 => (base.clone(), any::<u16>()).prop_map(|(b, i)| {
+            5 => (base.clone(), any::<u16>()).prop_map(|(b, i)| {
                 let up = b.to_ascii_uppercase();
                 let cands: Vec<(usize, usize, char)> = fold_alikes().iter().flat_map(|(a, c)| up.match_indices(a.as_str()).map(|(k, _)| (k, a.len(), *c)).collect::<Vec<_>>()).collect();
                 if cands.is_empty() { return format!("{b}\u{131}"); }
